@@ -132,9 +132,10 @@ def build_driver(name, flavour="plain", extra_src=(), cflags=(), ldflags=()):
     h.update(repr((cflags, ldflags, px["hash"], flavour)).encode())
     outdir = os.path.join(BUILD, "drv")
     os.makedirs(outdir, exist_ok=True)
-    exe = os.path.join(outdir, "%s-%s-%s" % (name, flavour, h.hexdigest()[:12]))
+    variant = hashlib.sha1(repr((tuple(extra_src), tuple(cflags), tuple(ldflags))).encode()).hexdigest()[:6]
+    exe = os.path.join(outdir, "%s-%s-%s-%s" % (name, flavour, variant, h.hexdigest()[:12]))
     if not os.path.exists(exe):
-        for o in glob.glob(os.path.join(outdir, "%s-%s-*" % (name, flavour))):
+        for o in glob.glob(os.path.join(outdir, "%s-%s-%s-*" % (name, flavour, variant))):
             try:
                 os.unlink(o)
             except OSError:
@@ -277,6 +278,33 @@ def known_findings(prop):
     return res
 
 
+def open_findings(prop):
+    """ids of the findings recorded (not repaired) for this property: the only deviations a check tolerates"""
+    return sorted(r["id"] for r in known_findings(prop) if r.get("status") == "open" and "id" in r)
+
+
+def cfg_with_deviations(base_cfg, prop, tag=None):
+    """Copy of a TLC .cfg in which CONSTANT Deviations is the set of open finding ids of KNOWN_FINDINGS.jsonl."""
+    ids = open_findings(prop)
+    txt = open(base_cfg).read()
+    lines = [ln for ln in txt.splitlines() if "Deviations" not in ln]
+    dev = "{" + ", ".join('"%s"' % i for i in ids) + "}"
+    out = []
+    done = False
+    for ln in lines:
+        if not done and (ln.startswith("POSTCONDITION") or ln.startswith("INVARIANT")):
+            out.append("CONSTANT Deviations = " + dev)
+            done = True
+        out.append(ln)
+    if not done:
+        out.append("CONSTANT Deviations = " + dev)
+    d = os.path.join(BUILD, "cfg")
+    os.makedirs(d, exist_ok=True)
+    path = os.path.join(d, "%s-%s-%d.cfg" % (os.path.basename(base_cfg)[:-4], tag or prop, os.getpid()))
+    open(path, "w").write("\n".join(out) + "\n")
+    return path
+
+
 # ------------------------------------------------------------------------------------------
 # check bookkeeping
 
@@ -333,8 +361,12 @@ class Check:
 
     def finish(self):
         self.write_evidence()
+        listed = {r["id"]: r for r in known_findings(self.prop) if r.get("status") == "open" and "id" in r}
         for fid, what in sorted(self.known_seen.items()):
-            print("KNOWN-FINDING: property=%s %s: %s" % (self.prop, fid, what))
+            if fid in listed:
+                print("KNOWN-FINDING: property=%s %s: %s" % (self.prop, fid, listed[fid].get("text", "")))
+            else:      # a deviation that the committed file does not list is a violation, never tolerated
+                self.violations.append({"what": "unlisted deviation %s reported (%s)" % (fid, what), "replay": "-"})
         if self.violations:
             for v in self.violations:
                 print("VIOLATION property=%s replay=%s" % (self.prop, v["replay"]))
